@@ -15,9 +15,11 @@ IsStr(r, codes) == r.t = "s" /\ r.v = codes
 IsLabel(r, w) == r.t = "s" /\ r.w = w
 IsTup(r, n) == r.t = "tup" /\ Len(r.v) = n
 \* numeric equality with the rational num/den, for int or float results
+\* (the recorded value is never multiplied: it may be any 32-bit integer, the model's values are small)
 NumEq(r, num, den) ==
-  \/ r.t = "i" /\ r.v * den = num
-  \/ r.t = "q" /\ r.x = 1 /\ (IF r.d = den THEN r.n = num ELSE r.n * den = num * r.d)
+  \/ r.t = "i" /\ num % den = 0 /\ r.v = num \div den
+  \/ r.t = "q" /\ r.x = 1 /\ (IF r.d = den THEN r.n = num
+                              ELSE LET p == num * r.d IN p % den = 0 /\ r.n = p \div den)
 \* an int (not a float) equal to v / a float equal to num/den
 IsNum(r) == r.t \in {"i", "q"}
 \* value or None
